@@ -31,11 +31,17 @@ class Findings(object):
             if fn is None:
                 continue
             try:
-                if fn(mod, viol['plan'], viol):
+                if _call(fn, mod, viol['plan'], viol, f):
                     return f['id']
             except Exception:
                 continue
         return None
+
+
+def _call(fn, mod, plan, viol, entry):
+    if fn.__code__.co_argcount >= 4:
+        return fn(mod, plan, viol, entry)
+    return fn(mod, plan, viol)
 
 
 def load():
@@ -62,7 +68,7 @@ def replay_finding(mod, f):
     fn = CLASSIFIERS.get(f.get('signature'))
     v = {'plan': doc['plan'], 'invariant': res['invariant'], 'sig': res['sig'],
          'detail': res.get('detail', {})}
-    if fn is not None and fn(mod, doc['plan'], v):
+    if fn is not None and _call(fn, mod, doc['plan'], v, f):
         return 'fails'
     return 'passes'
 
